@@ -58,6 +58,10 @@ func c05Materialize(wd string, nodes map[int]map[string]interface{}, files map[i
 			svc["extends"] = map[string]interface{}{"service": "nosuchservice"}
 		case ext == -2:
 			svc["extends"] = map[string]interface{}{"service": "x", "file": "./missing-file.yaml"}
+		case ext == -3:
+			// an empty file name (`file: ${UNSET}`) next to the name of a service this very file has: an error, not a same-file reference
+			svc["extends"] = map[string]interface{}{"service": asStr(nd["name"]) + "-sibling", "file": ""}
+			byFile[f][asStr(nd["name"])+"-sibling"] = map[string]interface{}{"image": "sibling"}
 		}
 		if asBool(nd["isnull"]) && len(svc) == 0 {
 			byFile[f][asStr(nd["name"])] = nil // declared without any content
